@@ -11,13 +11,14 @@ import (
 	"math"
 	"math/big"
 	"reflect"
-	"sort"
 	"strconv"
 	"strings"
 
 	"github.com/cockroachdb/apd/v3"
 
+	"github.com/dolthub/go-mysql-server/memory"
 	"github.com/dolthub/go-mysql-server/sql"
+	"github.com/dolthub/go-mysql-server/sql/types"
 	"github.com/dolthub/go-mysql-server/sql/variables"
 
 	"verifharness/lib"
@@ -321,7 +322,32 @@ func describeType(t sql.Type) tdesc {
 			return tdesc{Kind: "set", Vals: st.Values(), Coll: "sql.Collation_" + st.Collation().Name()}
 		}
 	}
+	if t != nil && t.Equals(types.Uint32) {
+		return tdesc{Kind: "uint32"}
+	}
+	if t != nil && t.Equals(types.Text) {
+		return tdesc{Kind: "text"}
+	}
 	return tdesc{Kind: "other"}
+}
+
+// setNames: the members whose bit is set, in declaration order (what SELECT @@x shows for a SET-typed variable).
+func (t tdesc) setNames(bits *big.Int) string {
+	var out []string
+	for i, v := range t.Vals {
+		if bits.Bit(i) == 1 {
+			out = append(out, strings.TrimRight(v, " "))
+		}
+	}
+	return strings.Join(out, ",")
+}
+
+// shownGo: a SET-typed variable's stored bit field as the engine shows it.
+func (t tdesc) shownGo(g gv) gv {
+	if t.Kind == "set" && g.K == "int" && g.Kind == "uint64" {
+		return gv{K: "str", S: t.setNames(bigOf(g.Z))}
+	}
+	return g
 }
 
 func (t tdesc) coq() string {
@@ -340,6 +366,10 @@ func (t tdesc) coq() string {
 		return "(TEnum " + lib.CoqListOf(t.Vals, coqString) + ")"
 	case "set":
 		return "(TSet " + coqString(t.Coll) + " " + lib.CoqListOf(t.Vals, coqString) + ")"
+	case "uint32":
+		return `(TOther "types.Uint32")`
+	case "text":
+		return `(TOther "types.Text")`
 	}
 	return `(TOther "")`
 }
@@ -539,6 +569,59 @@ func ideal(t tdesc, in gv) (int, gv) {
 			return mayEither, gv{K: "str", S: ""}
 		}
 		return mustReject, none
+	case "set":
+		all := new(big.Int).Sub(new(big.Int).Lsh(big.NewInt(1), uint(len(t.Vals))), big.NewInt(1))
+		switch in.K {
+		case "str":
+			bits := new(big.Int)
+			lenient := false
+			for _, piece := range strings.Split(in.S, ",") {
+				if piece == "" {
+					continue
+				}
+				name := strings.TrimRight(piece, " ")
+				hit := -1
+				for i, v := range t.Vals {
+					if strings.EqualFold(strings.TrimRight(v, " "), name) {
+						hit = i
+					}
+				}
+				if hit >= 0 {
+					bits.SetBit(bits, hit, 1)
+				} else if _, ok := plainInt(piece); ok {
+					lenient = true // a number inside the list: the property does not say
+				} else {
+					return mustReject, none
+				}
+			}
+			if lenient {
+				return mayEither, gv{K: "opq"}
+			}
+			return mustAccept, gv{K: "str", S: t.setNames(bits)}
+		case "int":
+			if z.Sign() >= 0 && z.Cmp(all) <= 0 {
+				return mustAccept, gv{K: "str", S: t.setNames(z)}
+			}
+			return mustReject, none
+		case "float", "dec", "bool":
+			return mayEither, gv{K: "opq"}
+		}
+		return mustReject, none
+	case "uint32":
+		if in.K == "int" {
+			if z.Sign() < 0 {
+				return mustReject, none
+			}
+			if z.Cmp(big.NewInt(4294967295)) <= 0 {
+				return mustAccept, intGV("uint32", z)
+			}
+		}
+		return mayEither, gv{K: "opq"} // an ordinary SQL type: saturation, rounding, NULL are its conversions
+	case "text":
+		if in.K == "str" {
+			return mustAccept, in
+		}
+		return mayEither, gv{K: "opq"}
 	case "double":
 		r := in.rat()
 		if in.K == "str" {
@@ -557,7 +640,8 @@ func ideal(t tdesc, in gv) (int, gv) {
 }
 
 func valueGoKind(t tdesc) string {
-	return map[string]string{"bool": "int8", "int": "int64", "uint": "uint64", "double": "float", "enum": "str", "string": "str"}[t.Kind]
+	return map[string]string{"bool": "int8", "int": "int64", "uint": "uint64", "double": "float", "enum": "str", "string": "str",
+		"set": "str", "uint32": "uint32", "text": "str"}[t.Kind]
 }
 
 // checkStored compares a value read back (or returned by Convert) with what the reference expects.
@@ -580,12 +664,23 @@ func checkStored(t tdesc, want, got gv) string {
 
 // ---------- cases ----------
 
+// asgT is one assignment of a SET statement.
+type asgT struct {
+	Tg   string `json:"tg"`             // global session user persist persist_only
+	X    string `json:"x"`              // target name as typed
+	Form int    `json:"form,omitempty"` // spelling of the scope: 0 keyword (GLOBAL x), 1 @@GLOBAL.x / @@SESSION.x, 2 @@global.x / @@x, 3 bare x
+	Src  string `json:"src"`            // lit default bare global session user
+	Lit  string `json:"lit,omitempty"`  // SQL text of a literal right-hand side
+	Y    string `json:"y,omitempty"`    // source variable (bare / global / session) or user variable
+}
+
 type opT struct {
-	Op  string `json:"op"` // new global session user
-	S   int    `json:"s"`
-	X   string `json:"x,omitempty"`
-	Lit string `json:"lit,omitempty"` // SQL text of the assigned expression
-	Form int   `json:"form,omitempty"` // spelling of the scope: 0 SET GLOBAL x / SET SESSION x, 1 SET @@GLOBAL.x / @@SESSION.x, 2 @@global.x / @@x, 3 SET x / SET LOCAL x
+	Op   string `json:"op"` // new | set | (single-assignment spelling) global session user
+	S    int    `json:"s"`
+	A    []asgT `json:"a,omitempty"`
+	X    string `json:"x,omitempty"`
+	Lit  string `json:"lit,omitempty"`
+	Form int    `json:"form,omitempty"`
 }
 
 type caseT struct {
@@ -617,7 +712,7 @@ func modelled(v *vdesc) bool {
 		return false
 	}
 	switch v.T.Kind {
-	case "bool", "int", "uint", "double", "enum", "string":
+	case "bool", "int", "uint", "double", "enum", "string", "set", "uint32", "text":
 		return true
 	}
 	return false
@@ -661,19 +756,22 @@ func runConv(c *lib.Ctx, cs caseT) {
 	case err != nil && verdict == mustAccept:
 		c.PredFail(id, sig+"rejected-valid", fmt.Sprintf("%s (%s): Convert(%s) fails (%v) although the value is valid", v.Key, v.T.coq(), in, err), cs)
 	case err == nil:
-		if f := checkStored(v.T, want, gotV); f != "" {
+		if f := checkStored(v.T, want, v.T.shownGo(gotV)); f != "" {
 			c.PredFail(id, sig+f, fmt.Sprintf("%s (%s): Convert(%s) = %s, expected %s", v.Key, v.T.coq(), in, gotV, want), cs)
 		}
 	}
 }
 
-// ----- histories -----
+// ----- histories of whole SET statements -----
 
 type refVal struct {
 	v       gv
-	unknown bool // after a defect was reported for this slot its content is no longer checked
+	alts    []gv // when non-empty: any of these (SET x = DEFAULT: the compiled default or the current global)
+	unknown bool // after a defect was reported for this slot, or when the property does not fix it
 	set     bool // assigned in this history (then the Go type is checked too)
 }
+
+func (r *refVal) copyOf() *refVal { c := *r; c.alts = append([]gv(nil), r.alts...); return &c }
 
 func litValue(s *eng.S, lit string) (gv, bool) {
 	switch strings.ToUpper(lit) {
@@ -690,16 +788,92 @@ func litValue(s *eng.S, lit string) (gv, bool) {
 
 func coqNat(i int) string { return strconv.Itoa(i) + "%nat" }
 
+// normalise turns the single-assignment spelling of an op (used by the corpus and the recorded findings) into a statement.
+func (o opT) normalise() opT {
+	switch o.Op {
+	case "global", "session", "user":
+		return opT{Op: "set", S: o.S, A: []asgT{{Tg: o.Op, X: o.X, Form: o.Form, Src: "lit", Lit: o.Lit}}}
+	}
+	return o
+}
+
+func (a asgT) sqlTarget(first bool) string {
+	f := a.Form % 4
+	if f == 3 && !first {
+		f = 0 // a bare name after the first assignment would inherit the preceding scope keyword
+	}
+	switch a.Tg {
+	case "global":
+		return []string{"GLOBAL ", "@@GLOBAL.", "@@global.", "GLOBAL "}[f] + a.X
+	case "session":
+		return []string{"SESSION ", "@@SESSION.", "@@", ""}[f] + a.X
+	case "persist":
+		return []string{"PERSIST ", "@@PERSIST."}[f%2] + a.X
+	case "persist_only":
+		return []string{"PERSIST_ONLY ", "@@PERSIST_ONLY."}[f%2] + a.X
+	}
+	return "@" + a.X
+}
+
+func (a asgT) sqlSource() string {
+	switch a.Src {
+	case "default":
+		return "DEFAULT"
+	case "bare":
+		return "@@" + a.Y
+	case "global":
+		return "@@GLOBAL." + a.Y
+	case "session":
+		return "@@SESSION." + a.Y
+	case "user":
+		return "@" + a.Y
+	}
+	return a.Lit
+}
+
 func runHist(c *lib.Ctx, cs caseT) {
 	variables.InitSystemVariables()
 	e := eng.New("db")
 	var sess []*eng.S
 	refGlobal := map[string]*refVal{}
 	var refSess []map[string]*refVal
-	var refUser []map[string]gv
+	var refUser []map[string]*refVal
+	var persisted []map[string]gv // what the driver itself saw in each session's persisted store
+	track := map[string]bool{}
 	for _, x := range cs.Vars {
+		track[x] = true
+	}
+	for _, o := range cs.Ops { // every variable a statement mentions is tracked and read
+		for _, a := range o.normalise().A {
+			if a.Tg != "user" {
+				track[strings.ToLower(a.X)] = true
+			}
+			if a.Src == "bare" || a.Src == "global" || a.Src == "session" {
+				track[strings.ToLower(a.Y)] = true
+			}
+		}
+	}
+	var vars []string
+	for _, x := range lib.SortedKeys(track) {
 		if v := regByKey[x]; v != nil {
+			vars = append(vars, x)
 			refGlobal[x] = &refVal{v: fromGo(v.Default)}
+		}
+	}
+	userNames := map[string]bool{}
+	persNames := map[string]bool{}
+	for _, o := range cs.Ops {
+		for _, a := range o.normalise().A {
+			if a.Tg == "user" {
+				userNames[strings.ToLower(a.X)] = true
+			}
+			if a.Src == "user" {
+				userNames[strings.ToLower(a.Y)] = true
+			}
+			if a.Tg == "persist" || a.Tg == "persist_only" {
+				persNames[a.X] = true
+				persNames[strings.ToLower(a.X)] = true
+			}
 		}
 	}
 	type fail struct{ sig, what string }
@@ -707,8 +881,16 @@ func runHist(c *lib.Ctx, cs caseT) {
 	addFail := func(sig, what string) { fails = append(fails, fail{sig, what}) }
 	var steps []string
 	modelOK := true
-	desc := func(i int) string { o := cs.Ops[i]; return fmt.Sprintf("step %d %+v", i, o) }
-
+	var nameRNG *lib.RNG
+	if cs.NameSeed != 0 {
+		nameRNG = lib.NewRNG(cs.NameSeed)
+	}
+	spell := func(x string) string {
+		if nameRNG == nil || nameRNG.Chance(1, 3) {
+			return x
+		}
+		return mixCase(nameRNG, x)
+	}
 	query := func(s *eng.S, q string) (gv, bool, bool) { // value, ok, usable
 		r := s.Query(q)
 		if r.Panic != "" {
@@ -723,127 +905,368 @@ func runHist(c *lib.Ctx, cs caseT) {
 		}
 		return fromGo(r.Rows[0][0]), true, true
 	}
+	readPersisted := func(si int, name string) gv {
+		v, _ := sess[si].Ctx.Session.(*memory.Session).GetPersistedValue(name)
+		return fromGo(v)
+	}
 
-	var nameRNG *lib.RNG
-	if cs.NameSeed != 0 {
-		nameRNG = lib.NewRNG(cs.NameSeed)
-	}
-	spell := func(x string) string {
-		if nameRNG == nil || nameRNG.Chance(1, 3) {
-			return x
-		}
-		return mixCase(nameRNG, x)
-	}
-	for i, o := range cs.Ops {
-		var opTerm string
+	for i, o0 := range cs.Ops {
+		o := o0.normalise()
+		var stmtTerm, q string
 		accepted := true
+		desc := fmt.Sprintf("step %d", i)
 		switch o.Op {
 		case "new":
-			sess = append(sess, e.Session())
+			ns := e.Session()
+			ns.Ctx.Session.(*memory.Session).SetGlobals(map[string]interface{}{})
+			sess = append(sess, ns)
 			m := map[string]*refVal{}
 			for k, rv := range refGlobal {
-				cp := *rv
-				m[k] = &cp
+				m[k] = rv.copyOf()
 			}
 			refSess = append(refSess, m)
-			refUser = append(refUser, map[string]gv{})
-			opTerm = "NewSession"
-		case "global", "session", "user":
-			if o.S >= len(sess) {
+			refUser = append(refUser, map[string]*refVal{})
+			persisted = append(persisted, map[string]gv{})
+			stmtTerm = "SNew"
+		case "set":
+			if o.S >= len(sess) || len(o.A) == 0 {
 				modelOK = false
 				continue
 			}
-			val, ok := litValue(sess[o.S], o.Lit)
-			if !ok {
+			si := o.S
+			// SQL text and model term
+			var parts, terms []string
+			vals := make([]gv, len(o.A))
+			good := true
+			for k, a := range o.A {
+				parts = append(parts, a.sqlTarget(k == 0)+" = "+a.sqlSource())
+				var tg, src string
+				switch a.Tg {
+				case "global":
+					tg = "TgGlobal " + coqString(a.X)
+				case "session":
+					tg = "TgSession " + lib.CoqBool(a.Form%4 == 1) + " " + coqString(a.X)
+				case "persist":
+					tg = "TgPersist false " + coqString(a.X)
+				case "persist_only":
+					tg = "TgPersist true " + coqString(a.X)
+				default:
+					tg = "TgUser " + coqString(a.X)
+				}
+				switch a.Src {
+				case "default":
+					src = "SrcDefault"
+				case "bare":
+					src = "SrcBare " + coqString(a.Y)
+				case "global":
+					src = "SrcGlobal " + coqString(a.Y)
+				case "session":
+					src = "SrcSession " + coqString(a.Y)
+				case "user":
+					src = "SrcUser " + coqString(a.Y)
+				default:
+					v, ok := litValue(sess[si], a.Lit)
+					if !ok {
+						good = false
+					}
+					vals[k] = v
+					src = "SrcVal " + v.coq()
+				}
+				terms = append(terms, "("+tg+", "+src+")")
+			}
+			if !good {
 				modelOK = false
 				continue
 			}
-			var q string
-			switch o.Op {
-			case "global":
-				q = []string{"SET GLOBAL ", "SET @@GLOBAL.", "SET @@global.", "SET GLOBAL "}[o.Form%4] + o.X + " = " + o.Lit
-				opTerm = fmt.Sprintf("SetGlobal %s %s %s", coqNat(o.S), coqString(o.X), val.coq())
-			case "session":
-				q = []string{"SET SESSION ", "SET @@SESSION.", "SET @@", "SET "}[o.Form%4] + o.X + " = " + o.Lit
-				opTerm = fmt.Sprintf("SetSession %s %s %s", coqNat(o.S), coqString(o.X), val.coq())
-			default:
-				q = "SET @" + o.X + " = " + o.Lit
-				opTerm = fmt.Sprintf("SetUser %s %s %s", coqNat(o.S), coqString(o.X), val.coq())
+			q = "SET " + strings.Join(parts, ", ")
+			desc = fmt.Sprintf("step %d session %d: %s", i, si, q)
+			stmtTerm = fmt.Sprintf("SSet %s %s", coqNat(si), lib.CoqList(terms))
+			persBefore := map[string]gv{}
+			for n := range persNames {
+				persBefore[n] = readPersisted(si, n)
 			}
-			r := sess[o.S].Query(q)
+			r := sess[si].Query(q)
 			if r.Panic != "" {
 				addFail("panic", q+": "+r.Panic)
 				modelOK = false
 				continue
 			}
 			accepted = r.Err == nil
-			if o.Op == "user" {
-				if !accepted {
-					addFail("user-variable/set-rejected", fmt.Sprintf("%s: %s fails: %v", desc(i), q, r.Err))
-				} else {
-					refUser[o.S][strings.ToLower(o.X)] = val
+
+			// ---- reference: what the property demands of this statement ----
+			type plan struct {
+				slot    *refVal
+				want    gv
+				alts    []gv
+				verdict int
+				bad     string // non-empty: this assignment must make the statement fail (reason)
+				cls     string
+				kind    string
+				noValue bool // PERSIST_ONLY: running values untouched
+			}
+			plans := make([]plan, len(o.A))
+			// a scratch copy of the reference on which the assignments are replayed in order
+			scratchG := map[string]*refVal{}
+			for k, rv := range refGlobal {
+				scratchG[k] = rv.copyOf()
+			}
+			scratchS := map[string]*refVal{}
+			for k, rv := range refSess[si] {
+				scratchS[k] = rv.copyOf()
+			}
+			scratchU := map[string]*refVal{}
+			for k, rv := range refUser[si] {
+				scratchU[k] = rv.copyOf()
+			}
+			known := func(rv *refVal) (gv, bool) {
+				if rv == nil || rv.unknown || len(rv.alts) > 0 || rv.v.K == "opq" {
+					return gv{}, false
 				}
-				break
+				return rv.v, true
 			}
-			// reference for a system variable assignment
-			key := strings.ToLower(o.X)
-			v := regByKey[key]
-			if v == nil {
-				if accepted {
-					addFail("unknown-variable-accepted", desc(i))
+			for k, a := range o.A {
+				pl := &plans[k]
+				key := strings.ToLower(a.X)
+				// the value assigned, as far as the reference knows it
+				var val gv
+				valKnown := true
+				isDefault := false
+				switch a.Src {
+				case "lit":
+					val = vals[k]
+				case "default":
+					isDefault = true
+				case "global":
+					val, valKnown = known(scratchG[strings.ToLower(a.Y)])
+				case "bare", "session":
+					yv := regByKey[strings.ToLower(a.Y)]
+					if yv != nil && yv.Scope == "ScGlobal" {
+						valKnown = false // stale snapshot / error: see the bare-read finding
+					} else {
+						val, valKnown = known(scratchS[strings.ToLower(a.Y)])
+					}
+				case "user":
+					if rv, ok := scratchU[strings.ToLower(a.Y)]; ok {
+						val, valKnown = known(rv)
+					} else {
+						val = gv{K: "nil"}
+					}
 				}
-				break
-			}
-			global := o.Op == "global"
-			scopeOK := !(global && v.Scope == "ScSession") && !(!global && v.Scope == "ScGlobal")
-			verdict, want := ideal(v.T, val)
-			var slot *refVal
-			if global {
-				slot = refGlobal[key]
-			} else {
-				slot = refSess[o.S][key]
-			}
-			sig := o.Op + "/" + v.T.Kind + "/" + inputClass(val) + "/"
-			switch {
-			case accepted && !v.Dynamic:
-				addFail("set/non-dynamic-accepted", fmt.Sprintf("%s: %s succeeds on a non-dynamic variable", desc(i), q))
-				slot.unknown = true
-			case accepted && !scopeOK:
-				addFail("set/wrong-scope-accepted/"+v.Scope, fmt.Sprintf("%s: %s succeeds although the variable's scope is %s", desc(i), q, v.Scope))
-				slot.unknown = true
-			case accepted && verdict == mustReject:
-				addFail("set/"+v.T.Kind+"/"+inputClass(val)+"/accepted-invalid", fmt.Sprintf("%s: %s succeeds although %s is not valid for %s %s", desc(i), q, val, v.Key, v.T.coq()))
-				slot.unknown = true
-			case !accepted && v.Dynamic && scopeOK && verdict == mustAccept:
-				addFail("set/"+v.T.Kind+"/"+inputClass(val)+"/rejected-valid", fmt.Sprintf("%s: %s fails (%v) although %s is valid for %s %s", desc(i), q, r.Err, val, v.Key, v.T.coq()))
-			case accepted:
-				slot.v, slot.unknown, slot.set = want, want.K == "opq", true
-			}
-			_ = sig
-		}
-		// reads after the step
-		var reads []string
-		for si, s := range sess {
-			for _, x := range cs.Vars {
-				v := regByKey[x]
-				if v == nil {
+				srcMayFail := false // reading @@SESSION.y of a GLOBAL-only y is an error of its own
+				if a.Src == "session" {
+					if yv := regByKey[strings.ToLower(a.Y)]; yv != nil && yv.Scope == "ScGlobal" {
+						srcMayFail = true
+					}
+				}
+				if a.Tg == "user" {
+					pl.kind = "user"
+					if isDefault {
+						pl.bad = "default-for-user-variable"
+						continue
+					}
+					nv := &refVal{v: val, unknown: !valKnown, set: true}
+					scratchU[key] = nv
+					pl.slot = nv
+					pl.verdict = mustAccept
+					if srcMayFail {
+						pl.verdict = mayEither
+					}
 					continue
 				}
+				v := regByKey[key]
+				if v == nil {
+					pl.bad = "unknown-variable"
+					continue
+				}
+				pl.kind = v.T.Kind
+				global := a.Tg == "global" || a.Tg == "persist"
+				if a.Tg != "persist_only" {
+					if !v.Dynamic {
+						pl.bad = "non-dynamic"
+					} else if global && v.Scope == "ScSession" {
+						pl.bad = "session-only"
+					} else if !global && v.Scope == "ScGlobal" {
+						pl.bad = "global-only"
+					}
+				}
+				if isDefault {
+					if a.Tg == "persist" || a.Tg == "persist_only" {
+						pl.verdict = mayEither
+						pl.noValue = true
+						continue
+					}
+					pl.verdict = mayEither
+					d := fromGo(v.Default)
+					pl.alts = []gv{d}
+					if g, ok := known(scratchG[key]); ok && !global {
+						pl.alts = append(pl.alts, g)
+					}
+					if d.K == "opq" {
+						pl.alts = nil
+						pl.want = gv{K: "opq"}
+					}
+					pl.cls = "default"
+				} else if !valKnown {
+					pl.verdict, pl.want, pl.cls = mayEither, gv{K: "opq"}, "unknown-source"
+				} else {
+					pl.verdict, pl.want = ideal(v.T, val)
+					pl.cls = inputClass(val)
+					if pl.verdict == mustReject && pl.bad == "" {
+						pl.bad = "invalid-value"
+					}
+				}
+				if a.Tg == "persist_only" {
+					pl.noValue = true
+					if pl.verdict == mustAccept {
+						pl.verdict = mayEither
+					}
+					continue
+				}
+				if a.Tg == "persist" && pl.verdict == mustAccept {
+					pl.verdict = mayEither // whether the session can persist at all is not the property's business
+				}
+				nv := &refVal{v: pl.want, alts: pl.alts, unknown: pl.want.K == "opq" && len(pl.alts) == 0, set: true}
+				if pl.bad == "" {
+					if global {
+						scratchG[key] = nv
+					} else {
+						scratchS[key] = nv
+					}
+				}
+				pl.slot = nv
+			}
+			firstBad := -1
+			allMust := true
+			for k := range plans {
+				if plans[k].bad != "" && firstBad < 0 {
+					firstBad = k
+				}
+				if plans[k].verdict != mustAccept || plans[k].bad != "" {
+					allMust = false
+				}
+			}
+			multi := "set" // signatures name the root cause, not the number of assignments
+			switch {
+			case accepted && firstBad >= 0:
+				pl := plans[firstBad]
+				sig := multi + "/" + pl.kind + "/" + pl.cls + "/accepted-invalid"
+				switch pl.bad {
+				case "non-dynamic":
+					sig = multi + "/non-dynamic-accepted"
+				case "session-only", "global-only":
+					sig = multi + "/wrong-scope-accepted/" + pl.bad
+				case "unknown-variable", "default-for-user-variable":
+					sig = multi + "/" + pl.bad + "-accepted"
+				}
+				addFail(sig, fmt.Sprintf("%s succeeds although assignment %d must be refused (%s)", desc, firstBad+1, pl.bad))
+				// the reference no longer knows the targets of this statement
+				for k, a := range o.A {
+					key := strings.ToLower(a.X)
+					switch a.Tg {
+					case "global", "persist":
+						if rv := refGlobal[key]; rv != nil {
+							rv.unknown = true
+						}
+					case "session":
+						if rv := refSess[si][key]; rv != nil {
+							rv.unknown = true
+						}
+					case "user":
+						refUser[si][key] = &refVal{unknown: true}
+					}
+					_ = k
+				}
+			case accepted:
+				// every assignment took effect, in order
+				for k, rv := range scratchG {
+					refGlobal[k] = rv
+				}
+				for k, rv := range scratchS {
+					refSess[si][k] = rv
+				}
+				for k, rv := range scratchU {
+					refUser[si][k] = rv
+				}
+			case !accepted && allMust:
+				addFail(multi+"/"+plans[0].kind+"/"+plans[0].cls+"/rejected-valid", fmt.Sprintf("%s fails (%v) although every assignment is valid", desc, r.Err))
+			default:
+				// rejected: the offending assignment and everything after it have no effect; with several assignments the
+				// earlier ones may or may not have run (the code runs them: C44_multi_set_not_atomic_fact)
+				if len(o.A) > 1 {
+					// only an assignment that is refused for its scope / dynamic flag / name is sure to stop the statement; one
+					// with an invalid value may be an instance of a known validation defect and have run
+					lim := len(o.A)
+					for k := range plans {
+						if b := plans[k].bad; b != "" && b != "invalid-value" {
+							lim = k
+							break
+						}
+					}
+					for k := 0; k < lim; k++ {
+						a := o.A[k]
+						key := strings.ToLower(a.X)
+						switch a.Tg {
+						case "global", "persist":
+							if rv := refGlobal[key]; rv != nil {
+								rv.unknown = true
+							}
+						case "session":
+							if rv := refSess[si][key]; rv != nil {
+								rv.unknown = true
+							}
+						case "user":
+							refUser[si][key] = &refVal{unknown: true}
+						}
+					}
+				}
+				// nothing may have been persisted by a (single-assignment) statement that failed
+				for _, n := range lib.SortedKeys(persBefore) {
+					if len(o.A) != 1 {
+						break
+					}
+					if now := readPersisted(si, n); !now.eq(persBefore[n]) {
+						reason := "other"
+						if firstBad >= 0 {
+							reason = plans[firstBad].bad
+						}
+						addFail("persist/rejected-but-persisted/"+reason, fmt.Sprintf("%s fails (%v) but the session's persisted store now has %s = %s (was %s)", desc, r.Err, n, now, persBefore[n]))
+					}
+				}
+			}
+		default:
+			modelOK = false
+			continue
+		}
+
+		// ---- reads after the step ----
+		var reads []string
+		for si, s := range sess {
+			for _, x := range vars {
+				v := regByKey[x]
 				check := func(what string, slot *refVal, got gv) {
 					if slot == nil || slot.unknown {
 						return
 					}
+					if len(slot.alts) > 0 {
+						for _, a := range slot.alts {
+							if a.sameValue(got) {
+								return
+							}
+						}
+						addFail("read/"+what+"/not-a-default", fmt.Sprintf("after %s: session %d %s = %s, expected one of %v", desc, si, what+x, got, slot.alts))
+						slot.unknown = true
+						return
+					}
 					if slot.set {
 						if f := checkStored(v.T, slot.v, got); f != "" {
-							addFail("read/"+what+"/"+f, fmt.Sprintf("after %s: session %d %s = %s, the value assigned is %s", desc(i), si, what+x, got, slot.v))
+							addFail("read/"+what+"/"+f, fmt.Sprintf("after %s: session %d %s = %s, the value assigned is %s", desc, si, what+x, got, slot.v))
 							slot.unknown = true
 						}
 					} else if !slot.v.sameValue(got) && slot.v.K != "opq" {
-						addFail("read/"+what+"/changed-without-assignment", fmt.Sprintf("after %s: session %d %s = %s, expected the untouched %s", desc(i), si, what+x, got, slot.v))
+						addFail("read/"+what+"/changed-without-assignment", fmt.Sprintf("after %s: session %d %s = %s, expected the untouched %s", desc, si, what+x, got, slot.v))
 						slot.unknown = true
 					}
 				}
-				// @@global.x
 				xg, xb, xs := spell(x), spell(x), spell(x)
 				if g, ok, usable := query(s, "SELECT @@"+lib.Pick(lib.NewRNG(uint64(i*131+si)+cs.NameSeed), []string{"global", "GLOBAL", "Global"})+"."+xg); usable {
 					if ok {
@@ -851,18 +1274,17 @@ func runHist(c *lib.Ctx, cs caseT) {
 						check("@@global.", refGlobal[x], g)
 					} else {
 						reads = append(reads, fmt.Sprintf("(RdGlobal %s %s, OErr)", coqNat(si), coqString(xg)))
-						addFail("read/@@global./error", fmt.Sprintf("after %s: SELECT @@global.%s fails", desc(i), x))
+						addFail("read/@@global./error", fmt.Sprintf("after %s: SELECT @@global.%s fails", desc, x))
 					}
 				}
-				// @@x: the session value, or for a GLOBAL-only variable the global value
 				if g, ok, usable := query(s, "SELECT @@"+xb); usable {
 					if ok {
 						reads = append(reads, fmt.Sprintf("(RdBare %s %s, OVal %s)", coqNat(si), coqString(xb), g.coq()))
 						if v.Scope == "ScGlobal" {
 							slot := refGlobal[x]
-							if !slot.unknown && slot.set && checkStored(v.T, slot.v, g) != "" {
+							if !slot.unknown && slot.set && len(slot.alts) == 0 && checkStored(v.T, slot.v, g) != "" {
 								addFail("read/global-only-variable/bare-read-stale-after-set-global",
-									fmt.Sprintf("after %s: session %d SELECT @@%s = %s although SET GLOBAL assigned %s (@@global.%s shows it)", desc(i), si, x, g, slot.v, x))
+									fmt.Sprintf("after %s: session %d SELECT @@%s = %s although SET GLOBAL assigned %s (@@global.%s shows it)", desc, si, x, g, slot.v, x))
 							} else if !slot.set {
 								check("@@", slot, g)
 							}
@@ -871,10 +1293,9 @@ func runHist(c *lib.Ctx, cs caseT) {
 						}
 					} else {
 						reads = append(reads, fmt.Sprintf("(RdBare %s %s, OErr)", coqNat(si), coqString(xb)))
-						addFail("read/@@/error", fmt.Sprintf("after %s: SELECT @@%s fails", desc(i), x))
+						addFail("read/@@/error", fmt.Sprintf("after %s: SELECT @@%s fails", desc, x))
 					}
 				}
-				// @@session.x (an error is legitimate for a GLOBAL-only variable)
 				if (i+si)%3 == 0 {
 					if g, ok, usable := query(s, "SELECT @@session."+xs); usable {
 						if ok {
@@ -885,39 +1306,35 @@ func runHist(c *lib.Ctx, cs caseT) {
 						} else {
 							reads = append(reads, fmt.Sprintf("(RdSession %s %s, OErr)", coqNat(si), coqString(xs)))
 							if v.Scope != "ScGlobal" {
-								addFail("read/@@session./error", fmt.Sprintf("after %s: SELECT @@session.%s fails", desc(i), x))
+								addFail("read/@@session./error", fmt.Sprintf("after %s: SELECT @@session.%s fails", desc, x))
 							}
 						}
 					}
 				}
 			}
-			// user variables of this session
-			names := map[string]bool{}
-			for _, p := range cs.Ops {
-				if p.Op == "user" {
-					names[strings.ToLower(p.X)] = true
-				}
-			}
-			ns := make([]string, 0, len(names))
-			for n := range names {
-				ns = append(ns, n)
-			}
-			sort.Strings(ns)
-			for _, n := range ns {
+			for _, n := range lib.SortedKeys(userNames) {
 				if g, ok, usable := query(s, "SELECT @"+n); usable && ok {
 					reads = append(reads, fmt.Sprintf("(RdUser %s %s, OVal %s)", coqNat(si), coqString(n), g.coq()))
-					want, has := refUser[si][n]
+					rv, has := refUser[si][n]
 					if !has {
-						want = gv{K: "nil"}
+						rv = &refVal{v: gv{K: "nil"}}
 					}
-					if !want.eq(g) {
-						addFail("user-variable/wrong-value", fmt.Sprintf("after %s: session %d SELECT @%s = %s, assigned %s", desc(i), si, n, g, want))
+					if !rv.unknown && rv.v.K != "opq" && !rv.v.eq(g) {
+						addFail("user-variable/wrong-value", fmt.Sprintf("after %s: session %d SELECT @%s = %s, assigned %s", desc, si, n, g, rv.v))
 					}
 				}
 			}
+			for _, n := range lib.SortedKeys(persNames) {
+				reads = append(reads, fmt.Sprintf("(RdPersist %s %s, OVal %s)", coqNat(si), coqString(n), readPersisted(si, n).coq()))
+			}
 		}
-		steps = append(steps, fmt.Sprintf("(%s, %s, %s)", opTerm, lib.CoqBool(accepted), lib.CoqList(reads)))
-		c.Count("hist-op:" + o.Op + ":" + map[bool]string{true: "accepted", false: "rejected"}[accepted])
+		steps = append(steps, fmt.Sprintf("(%s, %s, %s)", stmtTerm, lib.CoqBool(accepted), lib.CoqList(reads)))
+		if o.Op == "set" {
+			c.Count(fmt.Sprintf("hist-stmt:%d-assignments:%s", len(o.A), map[bool]string{true: "accepted", false: "rejected"}[accepted]))
+			for _, a := range o.A {
+				c.Count("hist-assign:" + a.Tg + ":" + a.Src)
+			}
+		}
 	}
 	var id int
 	if modelOK {
@@ -1122,6 +1539,106 @@ func genConv(r *lib.RNG) caseT {
 	return caseT{Kind: "conv", Var: v.Key, In: &g}
 }
 
+// user variables take every value type: integers of all sizes, decimals, floats, strings, NULL, booleans
+func genUserLit(r *lib.RNG) string {
+	return lib.Pick(r, []string{"0", "7", "-7", "200", "-300", "70000", "3000000000", "-3000000000", "9223372036854775807", "18446744073709551615",
+		"1.5", "1.50", "-0.25", "123456789.125", "7/2", "1e0", "2.5e0", "-1.5e3", "'abc'", "''", "'on'", "'1.5'", "NULL", "TRUE", "FALSE", "ON", "'it''s'"})
+}
+
+func genLitFor(r *lib.RNG, v *vdesc) string {
+	if v.T.Kind == "set" {
+		names := v.T.Vals
+		switch r.Intn(8) {
+		case 0:
+			return "''"
+		case 1:
+			return "'" + lib.Pick(r, []string{"x", "ANSI,", " ansi", "ansi ,", "1", "0,2", ", ,", "nope,ANSI"}) + "'"
+		case 2:
+			if v.Key != "sql_mode" { // integer literals for sql_mode are rewritten by the planbuilder
+				return strconv.Itoa(r.Intn(1<<uint(len(names)) + 2))
+			}
+			return lib.Pick(r, []string{"1.0", "2e0", "NULL", "TRUE", "1.5"})
+		default:
+			n := r.Range(1, 3)
+			var ps []string
+			for k := 0; k < n; k++ {
+				nm := lib.Pick(r, names)
+				switch r.Intn(4) {
+				case 0:
+					nm = mixCase(r, nm)
+				case 1:
+					nm = strings.ToLower(nm)
+				}
+				if r.Chance(1, 8) {
+					nm += " "
+				}
+				ps = append(ps, nm)
+			}
+			if r.Chance(1, 8) {
+				ps = append(ps, "")
+			}
+			return "'" + strings.Join(ps, ",") + "'"
+		}
+	}
+	return genLit(r, v.T)
+}
+
+func genAssign(r *lib.RNG, vs []*vdesc, users []string) asgT {
+	v := lib.Pick(r, vs)
+	name := v.Key
+	switch r.Intn(4) {
+	case 0:
+		name = mixCase(r, name)
+	case 1:
+		name = strings.ToUpper(name)
+	}
+	a := asgT{X: name, Form: r.Intn(4)}
+	switch k := r.Intn(20); {
+	case k < 8:
+		a.Tg = "session"
+	case k < 14:
+		a.Tg = "global"
+	case k < 17:
+		a.Tg, a.X = "user", lib.Pick(r, users)
+	case k < 19:
+		a.Tg = "persist"
+	default:
+		a.Tg = "persist_only"
+	}
+	other := lib.Pick(r, vs)
+	y := v.Key
+	if r.Chance(1, 3) {
+		y = other.Key
+	}
+	if r.Chance(1, 3) {
+		y = mixCase(r, y)
+	}
+	switch k := r.Intn(20); {
+	case k < 13:
+		a.Src = "lit"
+		if a.Tg == "user" {
+			if r.Bool() {
+				a.Lit = genUserLit(r)
+			} else {
+				a.Lit = genLitFor(r, v)
+			}
+		} else {
+			a.Lit = genLitFor(r, v)
+		}
+	case k < 15:
+		a.Src = "default"
+	case k < 17:
+		a.Src, a.Y = "global", y
+	case k < 18:
+		a.Src, a.Y = "bare", y
+	case k < 19:
+		a.Src, a.Y = "session", y
+	default:
+		a.Src, a.Y = "user", lib.Pick(r, users)
+	}
+	return a
+}
+
 func genHist(r *lib.RNG) caseT {
 	var cs caseT
 	cs.Kind = "hist"
@@ -1132,41 +1649,37 @@ func genHist(r *lib.RNG) caseT {
 		if r.Chance(2, 3) && !v.Dynamic {
 			continue // mostly assignable ones
 		}
+		if r.Chance(1, 12) { // the SET-typed and SQL-typed variables are few: pick them on purpose now and then
+			v = regByKey[lib.Pick(r, []string{"sql_mode", "log_output", "protocol_compression_algorithms", "server_id", "server_uuid"})]
+		}
 		dup := false
 		for _, w := range vs {
 			dup = dup || w == v
 		}
-		if !dup {
+		if !dup && v != nil {
 			vs = append(vs, v)
 			cs.Vars = append(cs.Vars, v.Key)
 		}
 	}
 	cs.Ops = append(cs.Ops, opT{Op: "new"})
 	ns := 1
-	n := r.Range(4, 10)
+	n := r.Range(4, 9)
 	users := []string{"u", "V", "u2"}
 	for i := 0; i < n; i++ {
-		s := r.Intn(ns)
-		v := lib.Pick(r, vs)
-		name := v.Key
-		switch r.Intn(4) {
-		case 0:
-			name = mixCase(r, name)
-		case 1:
-			name = strings.ToUpper(name)
-		}
-		form := r.Intn(4)
-		switch k := r.Intn(10); {
-		case k < 2 && ns < 4:
+		if r.Chance(1, 5) && ns < 4 {
 			cs.Ops = append(cs.Ops, opT{Op: "new"})
 			ns++
-		case k < 5:
-			cs.Ops = append(cs.Ops, opT{Op: "global", S: s, X: name, Lit: genLit(r, v.T), Form: form})
-		case k < 9:
-			cs.Ops = append(cs.Ops, opT{Op: "session", S: s, X: name, Lit: genLit(r, v.T), Form: form})
-		default:
-			cs.Ops = append(cs.Ops, opT{Op: "user", S: s, X: lib.Pick(r, users), Lit: sqlLit(r, genValue(r, lib.Pick(r, vs).T, true))})
+			continue
 		}
+		o := opT{Op: "set", S: r.Intn(ns)}
+		na := 1
+		if r.Chance(1, 4) {
+			na = r.Range(2, 3)
+		}
+		for k := 0; k < na; k++ {
+			o.A = append(o.A, genAssign(r, vs, users))
+		}
+		cs.Ops = append(cs.Ops, o)
 	}
 	if r.Chance(2, 3) {
 		cs.Ops = append(cs.Ops, opT{Op: "new"})
@@ -1190,7 +1703,7 @@ func strp(k, kind, z string) *gv { return &gv{K: k, Kind: kind, Z: z} }
 
 func main() {
 	lib.Main("C44", func(c *lib.Ctx) {
-		c.Header = "From Coq Require Import String ZArith NArith List.\nImport ListNotations.\nFrom GMS Require Import Sys.C44SysVarsBase Sys.C44SysVars Corr.C44.\nOpen Scope string_scope.\nOpen Scope N_scope."
+		c.Header = "From Coq Require Import String ZArith NArith List.\nImport ListNotations.\nFrom GMS Require Import Sys.C44SysVarsBase Sys.C44SysVars Sys.C44SysVarsStmt Corr.C44.\nOpen Scope string_scope.\nOpen Scope N_scope."
 		c.CaseType = "C44.case"
 		c.MismatchFn = "C44.mismatches"
 		c.SetRule("registry: every variable the running engine has (reflection) against the translated table; " +
@@ -1230,6 +1743,7 @@ func main() {
 			{Kind: "conv", Var: "group_concat_max_len", In: &gv{K: "dec", D: "-5.0"}},
 			{Kind: "conv", Var: "group_concat_max_len", In: &gv{K: "dec", D: "4.5"}},
 			{Kind: "conv", Var: "max_join_size", In: &gv{K: "float", F: "-1"}},
+			{Kind: "conv", Var: "server_id", In: strp("int", "int8", "-1")},
 			// fractional numerics on signed INT variables are rejected without effect
 			{Kind: "hist", Vars: []string{"auto_increment_increment", "max_connections"}, NameSeed: 7, Ops: []opT{{Op: "new"},
 				{Op: "session", S: 0, X: "auto_increment_increment", Lit: "2.5", Form: 2}, {Op: "session", S: 0, X: "auto_increment_increment", Lit: "7/2", Form: 2},
@@ -1239,6 +1753,35 @@ func main() {
 			{Kind: "hist", Vars: []string{"max_connections", "auto_increment_increment"}, NameSeed: 9, Ops: []opT{{Op: "new"},
 				{Op: "global", S: 0, X: "MAX_CONNECTIONS", Lit: "321"}, {Op: "global", S: 0, X: "Auto_Increment_Increment", Lit: "5", Form: 1}, {Op: "new"},
 				{Op: "global", S: 1, X: "AUTO_INCREMENT_INCREMENT", Lit: "6", Form: 2}, {Op: "new"}}},
+			// whole statements: several assignments, DEFAULT, @@y, PERSIST, SET-typed and SQL-typed variables, user variables of every type
+			{Kind: "hist", Vars: []string{"wait_timeout", "auto_increment_increment", "sql_log_bin"}, NameSeed: 11, Ops: []opT{{Op: "new"},
+				{Op: "set", S: 0, A: []asgT{{Tg: "session", X: "wait_timeout", Src: "lit", Lit: "5"}, {Tg: "session", X: "auto_increment_increment", Src: "lit", Lit: "0"}, {Tg: "session", X: "sql_log_bin", Src: "lit", Lit: "1"}}},
+				{Op: "set", S: 0, A: []asgT{{Tg: "session", X: "wait_timeout", Src: "lit", Lit: "6"}, {Tg: "session", X: "wait_timeout", Src: "lit", Lit: "'abc'"}}},
+				{Op: "set", S: 0, A: []asgT{{Tg: "session", X: "wait_timeout", Form: 2, Src: "lit", Lit: "8"}, {Tg: "session", X: "max_connections", Form: 1, Src: "lit", Lit: "3"}}},
+				{Op: "set", S: 0, A: []asgT{{Tg: "session", X: "wait_timeout", Form: 2, Src: "lit", Lit: "9"}, {Tg: "session", X: "max_connections", Form: 2, Src: "lit", Lit: "3"}}},
+				{Op: "set", S: 0, A: []asgT{{Tg: "global", X: "wait_timeout", Src: "lit", Lit: "77"}, {Tg: "session", X: "wait_timeout", Form: 1, Src: "global", Y: "wait_timeout"}, {Tg: "user", X: "u", Src: "bare", Y: "wait_timeout"}}},
+				{Op: "set", S: 0, A: []asgT{{Tg: "session", X: "wait_timeout", Src: "default"}}}, {Op: "new"}}},
+			{Kind: "hist", Vars: []string{"version", "insert_id", "wait_timeout"}, NameSeed: 13, Ops: []opT{{Op: "new"},
+				{Op: "set", S: 0, A: []asgT{{Tg: "persist", X: "wait_timeout", Src: "lit", Lit: "100"}}},
+				{Op: "set", S: 0, A: []asgT{{Tg: "persist_only", X: "wait_timeout", Form: 1, Src: "lit", Lit: "66"}}},
+				{Op: "set", S: 0, A: []asgT{{Tg: "persist_only", X: "version", Src: "lit", Lit: "'x'"}}},
+				{Op: "set", S: 0, A: []asgT{{Tg: "persist", X: "version", Src: "lit", Lit: "'y'"}}},
+				{Op: "set", S: 0, A: []asgT{{Tg: "persist", X: "insert_id", Src: "lit", Lit: "4"}}},
+				{Op: "set", S: 0, A: []asgT{{Tg: "persist", X: "wait_timeout", Src: "lit", Lit: "0"}}},
+				{Op: "set", S: 0, A: []asgT{{Tg: "persist", X: "wait_timeout", Src: "default"}}}, {Op: "new"}}},
+			{Kind: "hist", Vars: []string{"sql_mode", "log_output", "server_id", "server_uuid"}, NameSeed: 15, Ops: []opT{{Op: "new"},
+				{Op: "set", S: 0, A: []asgT{{Tg: "session", X: "sql_mode", Src: "lit", Lit: "'ansi_quotes,,ANSI ,'"}, {Tg: "user", X: "m", Src: "bare", Y: "sql_mode"}}},
+				{Op: "set", S: 0, A: []asgT{{Tg: "global", X: "log_output", Src: "lit", Lit: "5"}}}, {Op: "set", S: 0, A: []asgT{{Tg: "global", X: "log_output", Src: "lit", Lit: "8"}}},
+				{Op: "set", S: 0, A: []asgT{{Tg: "global", X: "log_output", Src: "lit", Lit: "'TABLE ,2, ,,0'"}}}, {Op: "set", S: 0, A: []asgT{{Tg: "global", X: "log_output", Src: "default"}}},
+				{Op: "set", S: 0, A: []asgT{{Tg: "global", X: "server_id", Src: "lit", Lit: "5"}}}, {Op: "set", S: 0, A: []asgT{{Tg: "global", X: "server_id", Src: "lit", Lit: "-1"}}},
+				{Op: "set", S: 0, A: []asgT{{Tg: "global", X: "server_id", Src: "lit", Lit: "4294967296"}}}, {Op: "set", S: 0, A: []asgT{{Tg: "session", X: "server_id", Src: "lit", Lit: "NULL"}}},
+				{Op: "set", S: 0, A: []asgT{{Tg: "global", X: "server_uuid", Src: "lit", Lit: "'abc'"}}}, {Op: "set", S: 0, A: []asgT{{Tg: "session", X: "sql_mode", Src: "default"}}}, {Op: "new"}}},
+			{Kind: "hist", Vars: []string{"wait_timeout"}, NameSeed: 17, Ops: []opT{{Op: "new"}, {Op: "new"},
+				{Op: "set", S: 0, A: []asgT{{Tg: "user", X: "a", Src: "lit", Lit: "7"}, {Tg: "user", X: "b", Src: "lit", Lit: "1.50"}, {Tg: "user", X: "c", Src: "lit", Lit: "'txt'"}}},
+				{Op: "set", S: 0, A: []asgT{{Tg: "user", X: "d", Src: "lit", Lit: "NULL"}, {Tg: "user", X: "e", Src: "lit", Lit: "2.5e0"}, {Tg: "user", X: "f", Src: "lit", Lit: "18446744073709551615"}}},
+				{Op: "set", S: 1, A: []asgT{{Tg: "user", X: "A", Src: "user", Y: "a"}, {Tg: "session", X: "wait_timeout", Src: "user", Y: "A"}}},
+				{Op: "set", S: 0, A: []asgT{{Tg: "session", X: "wait_timeout", Src: "user", Y: "a"}, {Tg: "user", X: "g", Src: "default"}}},
+				{Op: "set", S: 0, A: []asgT{{Tg: "session", X: "wait_timeout", Src: "user", Y: "a"}, {Tg: "session", X: "wait_timeout", Src: "user", Y: "c"}}}}},
 			// ordinary behaviour
 			{Kind: "hist", Vars: []string{"wait_timeout"}, Ops: []opT{{Op: "new"}, {Op: "new"}, {Op: "session", S: 0, X: "wait_timeout", Lit: "5"},
 				{Op: "global", S: 1, X: "WAIT_TIMEOUT", Lit: "77"}, {Op: "new"}, {Op: "session", S: 2, X: "wait_timeout", Lit: "0"}, {Op: "session", S: 2, X: "wait_timeout", Lit: "'abc'"},
